@@ -46,7 +46,7 @@ def report_violation(module, prop, res, cfg, shrink=True, log=print):
     klass = res["klass"]
     if shrink:
         try:
-            out = driver.one_shot(module, spec, cfg, {"cmd": "shrink", "case": case, "klass": klass}, timeout=cfg.get("shrink_wall", 600))
+            out = driver.one_shot(module, spec, cfg, {"cmd": "shrink", "case": case, "klass": klass, "verdict": res.get("verdict", "violation")}, timeout=cfg.get("shrink_wall", 600))
             for o in out:
                 if "case" in o and o["case"]:
                     case = o["case"]
@@ -59,14 +59,15 @@ def report_violation(module, prop, res, cfg, shrink=True, log=print):
     except driver.HarnessError as e:
         out = [{"harness_error": str(e)}]
     final = out[0] if out else {}
-    if final.get("verdict") not in ("violation", "known") or final.get("klass") != klass:
+    want = res.get("verdict", "violation")
+    if final.get("verdict") != want or final.get("klass") != klass:
         # fall back to the unshrunk case before calling the harness flaky
         try:
             out2 = driver.one_shot(module, spec, cfg, {"cmd": "exec", "case": res["case"]}, timeout=cfg.get("replay_wall", 300))
         except driver.HarnessError as e:
             out2 = [{"harness_error": str(e)}]
         f2 = out2[0] if out2 else {}
-        if f2.get("verdict") in ("violation", "known") and f2.get("klass") == klass:
+        if f2.get("verdict") == want and f2.get("klass") == klass:
             case, final = res["case"], f2
         else:
             path = write_replay(prop, res["case"], res)
